@@ -463,11 +463,32 @@ def mergeRoot (now : Int) (s : St) (srcRoot : Node) : Except MErr St :=
     else pure s
   | _, _ => pure s
 
+mutual
+  /-- number of groups below (and excluding) a node: `other.root.iter()` filtered to groups -/
+  def groupCount : Node → Nat
+    | .group _ _ _ cs => groupCountL cs
+    | .entry _ => 0
+  def groupCountL : List Node → Nat
+    | [] => 0
+    | c :: cs => (if c.isGroup then 1 else 0) + groupCount c + groupCountL cs
+end
+
+/-- the repeated pass of `merge` (repair of the idempotence gap found by the thorough tier of C13): `merge_group` over
+    the whole source tree is repeated until a pass reports no event, at most (number of source groups + 1) times -/
+def mergePasses (now : Int) (tombs : List Tomb) (srcRoot : Node) : Nat → St → Except MErr St
+  | 0, s => pure s
+  | k + 1, s =>
+    match mergeGroup now tombs { s with events := [] } [] srcRoot false with
+    | .error e => .error e
+    | .ok s' =>
+      let s'' := { s' with events := s.events ++ s'.events }
+      if s'.events.isEmpty then pure s'' else mergePasses now tombs srcRoot k s''
+
 /-- `Database::merge(self = dst, other = src)` -/
 def merge (now : Int) (dst src : Db) : Except MErr (Db × List Event) := do
   let s : St := ⟨dst.root, []⟩
   let s ← mergeRoot now s src.root
-  let s ← mergeGroup now dst.tombs s [] src.root false
+  let s ← mergePasses now dst.tombs src.root (groupCount src.root + 1) s
   let (s, tombs) ← mergeDeletions now dst.tombs s src
   pure (⟨s.root, tombs⟩, s.events)
 
